@@ -19,6 +19,18 @@ static mut SHADOW: *mut Shadow = std::ptr::null_mut();
 pub fn shadow() -> &'static mut Shadow {
     unsafe { &mut *SHADOW }
 }
+/// VERIF_EVDEBUG=1 (with VERIF_CHILD_STDERR=1): print every library event, for triage
+pub fn evdebug() -> bool {
+    static ON: std::sync::atomic::AtomicU8 = std::sync::atomic::AtomicU8::new(2);
+    let v = ON.load(std::sync::atomic::Ordering::Relaxed);
+    if v == 2 {
+        let on = std::env::var_os("VERIF_EVDEBUG").is_some() as u8;
+        ON.store(on, std::sync::atomic::Ordering::Relaxed);
+        return on == 1;
+    }
+    v == 1
+}
+
 pub fn installed() -> bool {
     unsafe { !SHADOW.is_null() }
 }
@@ -117,8 +129,40 @@ pub struct Closure {
 pub struct UserCs {
     /// live guards (uids), excluding one suspended by reactivate_after
     pub guards: Vec<u64>,
+    /// participant each of those guards belongs to (parallel to `guards`; 0 = the thread's own).
+    /// A thread has one participant except during thread-local destruction after its handle is
+    /// gone, where every outermost `cs()` registers a temporary participant of its own: guards
+    /// of different participants are different critical sections, not nested ones.
+    pub glocal: Vec<usize>,
+    /// per participant with live guards: when its critical section began
+    pub pstart: Vec<(usize, u64)>,
     pub cs_start_seq: u64,
     pub suspended: bool,
+    pub suspended_uid: u64,
+}
+
+impl UserCs {
+    fn local_of(&self, uid: u64) -> Option<usize> {
+        self.guards.iter().position(|&g| g == uid).map(|i| self.glocal[i])
+    }
+    /// is `uid` the only live guard of its participant?
+    pub fn sole_on_participant(&self, uid: u64) -> bool {
+        match self.local_of(uid) {
+            Some(l) => self.glocal.iter().filter(|&&x| x == l).count() == 1,
+            None => false,
+        }
+    }
+    /// start of every critical section (one per participant) that is active right now
+    pub fn active_cs_starts(&self) -> Vec<u64> {
+        let mut v = Vec::new();
+        for &(l, start) in &self.pstart {
+            let live = self.guards.iter().zip(self.glocal.iter()).filter(|(&g, &gl)| gl == l && !(self.suspended && g == self.suspended_uid)).count();
+            if live > 0 {
+                v.push(start);
+            }
+        }
+        v
+    }
 }
 
 pub struct Soft {
@@ -381,25 +425,62 @@ impl Shadow {
     // ---- guards and holdings ----
 
     pub fn guard_created(&mut self, tid: usize) -> u64 {
+        self.guard_created_on(tid, 0)
+    }
+    /// `local`: address of the participant the guard pins (0 = the thread's only one)
+    pub fn guard_created_on(&mut self, tid: usize, local: usize) -> u64 {
         let uid = self.next_guard_uid;
         self.next_guard_uid += 1;
+        let seq = sim().seq;
         let u = &mut self.ucs[tid];
         if u.guards.is_empty() {
-            u.cs_start_seq = sim().seq;
+            u.cs_start_seq = seq;
+        }
+        if !u.glocal.contains(&local) {
+            u.pstart.retain(|e| e.0 != local);
+            u.pstart.push((local, seq));
         }
         u.guards.push(uid);
+        u.glocal.push(local);
         uid
     }
-    /// invocation of drop / reactivate of a guard: every holding made under it dies now
     pub fn guard_released(&mut self, tid: usize, uid: u64, dropped: bool) {
         self.holdings.retain(|h| !(h.tid == tid && h.guard == uid));
         if dropped {
-            self.ucs[tid].guards.retain(|&g| g != uid);
+            let u = &mut self.ucs[tid];
+            if let Some(i) = u.guards.iter().position(|&g| g == uid) {
+                let l = u.glocal[i];
+                u.guards.remove(i);
+                u.glocal.remove(i);
+                if !u.glocal.contains(&l) {
+                    u.pstart.retain(|e| e.0 != l);
+                }
+            }
         }
     }
     /// `reactivate` on the sole guard returned: a new critical section begins
     pub fn cs_restarted(&mut self, tid: usize) {
-        self.ucs[tid].cs_start_seq = sim().seq;
+        let seq = sim().seq;
+        let u = &mut self.ucs[tid];
+        u.cs_start_seq = seq;
+        for e in u.pstart.iter_mut() {
+            e.1 = seq;
+        }
+    }
+    /// the same for the participant of guard `uid` only
+    pub fn cs_restarted_for(&mut self, tid: usize, uid: u64) {
+        let seq = sim().seq;
+        let u = &mut self.ucs[tid];
+        if let Some(l) = u.local_of(uid) {
+            for e in u.pstart.iter_mut() {
+                if e.0 == l {
+                    e.1 = seq;
+                }
+            }
+            if u.glocal.iter().all(|&x| x == l) {
+                u.cs_start_seq = seq;
+            }
+        }
     }
     pub fn hold(&mut self, tid: usize, guard: u64, o: u32, weak: bool, src: Src) {
         let ob = &self.objs[o as usize];
@@ -770,6 +851,9 @@ impl Monitor for RcMonitor {
 
     fn event(&mut self, tid: usize, k: u32, a: usize, b: usize, c: usize) {
         let sh = shadow();
+        if evdebug() {
+            eprintln!("EV seq={} t{} op={} kind={} a={:#x} b={} c={}", sim().seq, tid, sim().threads[tid].op_idx, k, a, b, c);
+        }
         match k {
             kind::RECLAIM_NOW => {
                 sh.last_reclaim_now = Some((a, b, c));
